@@ -67,6 +67,7 @@ type Stats struct {
 	Instrs       int64
 	Unknowns     int
 	IntervalDecided int
+	DomainSimplified int
 	IntQueries   int
 	IntDecided   int
 	IntTimeNs    int64
@@ -144,6 +145,7 @@ type State struct {
 	decs     []Decision // decisions taken on this path
 	synced   int        // decisions [0,synced) are already on the solver stack
 	hasPrev  bool
+	mvVars   map[uint32]bool
 	multiVar bool // the path condition contains constraints over more than one variable
 	pathCond []*smt.Term
 	domains  map[uint32]*[4]uint64 // byte-variable domains
